@@ -269,13 +269,13 @@ def run(model, col, tier):
         col.check(good, "R07.3", f"{WA}::Module.{meth}", f"forwards to {sec}.{inner}", f"does not forward its argument to {sec}.{inner}", WA, m)
     for cname, meth in (("TypeSection", "AddType"), ("FunctionSection", "AddFunction")):
         m = model.cls(WA, cname).own_method(meth)
-        src = unparse(m)
-        slot = find_assign(m, "slot")
-        good = bool(slot) and unparse(slot[0]).startswith("len(self.") and "append" in src and [unparse(r.value) for r in ast.walk(m) if isinstance(r, ast.Return)] == ["slot"]
-        if good:
-            ln_slot = [n for n in ast.walk(m) if isinstance(n, ast.Assign) and unparse(n.targets[0]) == "slot"][0].lineno
-            ln_app = [n for n in ast.walk(m) if isinstance(n, ast.Call) and last_attr(n) == "append"][0].lineno
-            good = ln_slot < ln_app
+        import re as _re7
+        from ..sem import alpha as _alpha7
+
+        src = _alpha7(m)
+        # v0 = len(self.<table>); self.<table>.append(p0); return v0      (or: append first and return len(..) - 1)
+        good = bool(_re7.fullmatch(r"v0 = len\(self\.(\w+)\) self\.\1\.append\(p0\) return v0", src)) or \
+            bool(_re7.fullmatch(r"self\.(\w+)\.append\(p0\) return len\(self\.\1\) - 1", src))
         col.check(good, "R07.3", f"{WA}::{cname}.{meth} index", "returns the index the new entry gets (length before append)", "does not return the index of the appended entry", WA, m)
     # ---------------- R07.4 ------------------------------------------------------
     code = model.cls(WA, "Code")
